@@ -49,7 +49,7 @@ func (g *gen) graphCase(id string) *EvalCase {
 	depthPool := []int{1, 2, 3, 5, 18, 19, 20, 21, 22, 25, 40, 60}
 	fk := func(i int) string { return fmt.Sprintf("g%d", i) }
 	sk := func(i int) string { return fmt.Sprintf("sg%d", i) }
-	shape := r.intn(12)
+	shape := r.intn(14)
 	tag := ""
 	switch shape {
 	case 0, 1: // chain of prerequisites, all met, optionally the last one unmet/off/missing
@@ -96,6 +96,39 @@ func (g *gen) graphCase(id string) *EvalCase {
 			c.Store.Flags[j].On = false
 			tag += "-cut"
 		}
+	case 12, 13: // below a lead-in chain, a flag whose first prerequisite walks through segments and whose second shares a key with one of them
+		l := pick(r, []int{0, 1, 17, 18, 19, 20, 21, 25, 30})
+		tag = fmt.Sprintf("prereq-then-segments-after-%d", l)
+		top.Prereqs = []WPrereq{{fk(0), 0}}
+		for i := 0; i < l; i++ {
+			f := simpleFlag(fk(i), true, 0, 2)
+			f.Prereqs = []WPrereq{{fk(i + 1), 0}}
+			c.Store.Flags = append(c.Store.Flags, f)
+		}
+		shared := pick(r, []string{"beta-testers", sk(0), "gate"})
+		deep := simpleFlag(fk(l), true, 0, 2)
+		deep.Prereqs = []WPrereq{{"gate", 0}, {shared, 0}}
+		gate := simpleFlag("gate", true, 0, 2)
+		gate.Rules = []WFlagRule{{ID: "g", VR: WVR{V: ip(0), RO: WRollout{Vars: []WWV{}, By: mkRef("", "")}},
+			Clauses: []WClause{segRefRule(shared, sk(1)).Clauses[0]}}}
+		sameKey := simpleFlag(shared, true, 0, 2)
+		if shared == "gate" {
+			sameKey = gate
+		}
+		if r.chance(1, 3) {
+			sameKey.Prereqs = []WPrereq{{fk(l), 0}} // a real cycle back to the deep flag
+		}
+		s0 := simpleSegment(shared)
+		s0.Rules = []WSegRule{segRefRule(sk(1))}
+		s1 := simpleSegment(sk(1))
+		if r.bool() {
+			s1.Inc = []string{"a", "b"}
+		}
+		c.Store.Flags = append(c.Store.Flags, deep, gate)
+		if shared != "gate" {
+			c.Store.Flags = append(c.Store.Flags, sameKey)
+		}
+		c.Store.Segments = append(c.Store.Segments, s0, s1)
 	case 3, 4: // diamond below a lead-in chain: a and b both require c
 		l := pick(r, []int{0, 1, 17, 18, 19, 20, 21, 30})
 		tag = fmt.Sprintf("prereq-diamond-after-%d", l)
@@ -208,6 +241,24 @@ func (g *gen) graphCase(id string) *EvalCase {
 	if strings.Contains(tag, "-via-top") {
 		// the evaluated flag is also what the store returns for its key: a cycle through it
 		c.Store.Flags = append(c.Store.Flags, top)
+	}
+	if len(c.Store.Segments) > 0 && r.chance(1, 3) {
+		// some or all of the segments are big segments whose membership the store does not decide
+		// (no entry for the segment, or no membership at all): their rules are consulted like those
+		// of any other segment, so chains, diamonds and cycles run through them just the same
+		all := r.bool()
+		for i := range c.Store.Segments {
+			if all || r.bool() {
+				s := &c.Store.Segments[i]
+				s.Unb, s.UnbK, s.Gen = true, pick(r, []string{"", "user"}), ip(1+r.intn(2))
+			}
+		}
+		ans := WBSAnswer{St: pick(r, []string{"HEALTHY", "HEALTHY", "STALE"})}
+		if r.bool() {
+			ans.M = []WMember{} // a membership that says nothing about any segment
+		}
+		c.BS = &WBS{Dflt: ans, Table: []WBSEntry{}}
+		tag += "-bigseg"
 	}
 	c.Flag = top
 	c.Tags = []string{tag}
@@ -809,6 +860,25 @@ func (g *gen) bucketDenseCase(id string) *EvalCase {
 		pf := mkFlag(fmt.Sprintf("p%d", i))
 		c.Store.Flags = append(c.Store.Flags, pf)
 		top.Prereqs = append(top.Prereqs, WPrereq{pf.Key, r.intn(2)})
+	}
+	if r.chance(1, 3) {
+		// a flag and a segment with the same key AND the same salt (flags and segments are separate
+		// namespaces, but their hash inputs then coincide unless a seed is used): every bucket
+		// computation of the flag has a twin in the segment
+		s := &c.Store.Segments[r.intn(len(c.Store.Segments))]
+		old := s.Key
+		s.Key, s.Salt = top.Key, top.Salt
+		lk := old
+		s.LK = &lk // still found under the key the clauses use
+		for i := range s.Rules {
+			if r.bool() {
+				s.Rules[i].RCK, s.Rules[i].By = top.FT.RO.CK, top.FT.RO.By
+			}
+		}
+		if r.chance(2, 3) {
+			top.FT.RO.Seed = ip(pick(r, []int{1, 61, 0}))
+			top.FT.RO.Kind = pick(r, []string{"rollout", "", "experiment"})
+		}
 	}
 	c.Flag = top
 	c.Tags = []string{"bucketdense"}
